@@ -22,11 +22,12 @@ const PIECES: [&str; 22] = [
 const N_VALID: usize = 17;
 
 const IPIECES: [&str; 10] = ["a", "{", "}", "\\$", "\\\"", "é", "€", "😀", "\\n", " "];
-const SLOTS: [&str; 13] = [
+const SLOTS: [&str; 17] = [
     "x", "\"s\"", "f(\"(\")", "o.k", "xs[0]", "{\"k\": \"v\"}.k", "$\"${x}\"", "x + \"é\"", "\"€\"", "f(\"{}\")",
+    "$\"${o.k}\"", "\"\\$\" + x", "f(\"\\\"\")", "$\"<${xs[0]}>\"",
     "1", "y", "null",
 ];
-const N_GOOD_SLOTS: usize = 10;
+const N_GOOD_SLOTS: usize = 14;
 
 const T_PLAIN: u32 = 1;
 const T_INTERP: u32 = 2;
